@@ -100,6 +100,26 @@ CHECKS = {
                     "reads confined to inputs/bundled template, one finished write per output. Does not decide "
                     "OS-level atomicity under concurrent writers of the same target.",
             "note": TB + "; insertion-ordered dict/list iteration; MatlabWrapper single-use (exempt from R3)"},
+    "C15": {"engine": "F+E", "design_ref": "DESIGN.md section 3 C15",
+            "technique": "static analysis: normal-form comparison of ignore keys across sibling sites, dominance of the ignore test over every per-class emission, None-result handling at every caller",
+            "text": "Decides that each generator computes one ignore key, that the ignore test dominates all artefacts of "
+                    "the class (binding, enums; classdef, ids, collector, clean-up, RTTI) and that the 'ignored' result "
+                    "is tested before use. Equivalence with deleting the declaration for all inputs is not re-proved.",
+            "note": TB},
+    "C16": {"engine": "F+E", "design_ref": "DESIGN.md section 3 C16",
+            "technique": "static analysis: separator provenance of the parsed text, agreement of folded initialiser templates (declaration/definition/call/module variable), CLI option plumbing table with None-reachability, sibling-script normal forms",
+            "text": "Decides that file contents are separated before parsing, that the main file and submodules agree on "
+                    "initialiser name, signature and module variable, that every CLI option reaches its API keyword "
+                    "and a possibly-None option never reaches a membership test, and that both scripts normalise the "
+                    "top namespace identically. Linking/importing the combined module is not decided.",
+            "note": TB + "; argparse semantics as documented"},
+    "C17": {"engine": "E+F", "design_ref": "DESIGN.md section 3 C17",
+            "technique": "static analysis: confinement of the XML configuration to one template slot, Engler-style contradiction rule for Optional results with path facts, handler coverage, index bound, query provenance",
+            "text": "Decides that XML configuration influences only the docstring slot (empty without XML), that "
+                    "Optional XML results are never dereferenced without a dominating test, that unreadable/malformed "
+                    "XML becomes an empty docstring, that the overload index is bounded and that class/method/argument "
+                    "names select the documented member. Exact decoding of the literal for all Unicode is not decided.",
+            "note": TB + "; ElementTree find()/text may be None"},
     "C18": {"engine": "X", "design_ref": "DESIGN.md section 3 C18",
             "technique": "static analysis: clang -fsyntax-only AST (JSON) of matlab.h against declaration-only stubs; writer/reader table agreement, guard-before-use ordering, typed/bounded raw stores, loop-nest shape comparison",
             "text": "Decides the structural conditions of loss-free conversion in matlab.h: wrap/unwrap tables "
@@ -119,5 +139,4 @@ CHECKS = {
 }
 PENDING = "checker not implemented yet in this revision (see DESIGN.md section 3 for the planned static rules)"
 NOT_APPLICABLE = {p: PENDING for p in
-                  ["C06", "C10", "C11",
-                   "C15", "C16", "C17"]}
+                  ["C06", "C10", "C11"]}
